@@ -15,6 +15,7 @@
 (*      illtext{text, ill}: the text is lexically ill-formed in the given way  *)
 (*      (or, ill = "nested", a $GENERATE that expands to a $GENERATE).         *)
 (* C07  parser{allowed, chain}  next{res: rr | err | eof, id}  open{path}      *)
+(*      readfail (a reader handed the parser an I/O error)                     *)
 (*      the safety side of Zone's machine with the line content abstracted     *)
 (*      away: these events drive Zone's own variables err / out / opens.  A    *)
 (*      history is accepted only if no record and no Open follows an error,    *)
@@ -24,8 +25,8 @@
 (*      high-water mark.                                                       *)
 EXTENDS Zone, TraceBase
 
-VARIABLES l, S, tcfg, perr, chain
-tvars == <<l, S, tcfg, perr, chain>>
+VARIABLES l, S, tcfg, perr, chain, rfail
+tvars == <<l, S, tcfg, perr, chain, rfail>>
 
 Ev == Trace[l]
 
@@ -36,21 +37,21 @@ NewRecs(s, t) == [i \in 1..(Len(t.out) - Len(s.out)) |-> Rec5(t.out[Len(s.out) +
 Explains(s, t, e) == t.undef \/ (t.err = e.err /\ NewRecs(s, t) = e.recs)
 StartEv == /\ Ev.ev = "start"
            /\ S' = Starts(Ev.cfg) /\ tcfg' = Ev.cfg
-           /\ UNCHANGED <<perr, chain, zvars>>
+           /\ UNCHANGED <<perr, chain, rfail, zvars>>
 LineEv ==
   /\ Ev.ev = "line"
   /\ LET pairs == UNION { { <<s, t>> : t \in Step(s, tcfg, Ev.line, Ev.ln) } : s \in S }
          good == { p \in pairs : Explains(p[1], p[2], Ev) }
      IN IF good # {} THEN S' = { p[2] : p \in good }
         ELSE MarkBad(l) /\ S' = { p[2] : p \in pairs }
-  /\ UNCHANGED <<tcfg, perr, chain, zvars>>
+  /\ UNCHANGED <<tcfg, perr, chain, rfail, zvars>>
 
 \* ---- TV of renderings
 SpellEv ==
   /\ Ev.ev = "spell"
   /\ LET r == LinesOfText(Ev.text) IN
      IF r.st = "ok" /\ ~r.amb /\ ~r.odd /\ r.lines = Ev.lines THEN TRUE ELSE MarkBad(l)
-  /\ UNCHANGED <<S, tcfg, perr, chain, zvars>>
+  /\ UNCHANGED <<S, tcfg, perr, chain, rfail, zvars>>
 
 \* a text the harness built to be lexically ill-formed in a given way
 \* ill = "nested": the text is a $GENERATE whose owner template expands to $GENERATE (whatever follows)
@@ -62,38 +63,45 @@ NestedGenerate(text) ==
 IllEv ==
   /\ Ev.ev = "illtext"
   /\ (IF (IF Ev.ill = "nested" THEN NestedGenerate(Ev.text) ELSE Lex(Ev.text).ill = Ev.ill) THEN TRUE ELSE MarkBad(l))
-  /\ UNCHANGED <<S, tcfg, perr, chain, zvars>>
+  /\ UNCHANGED <<S, tcfg, perr, chain, rfail, zvars>>
 
 \* ---- C07: Zone's variables driven by what was observed at the parser's surface
 Rest == <<pol, origin, lastOwner, dirTTL, lastTTL, errln, undef, depth, dir, nline>>
 ParserEv == /\ Ev.ev = "parser"
             /\ cfg' = [cfg EXCEPT !.incAllowed = Ev.allowed]
-            /\ err' = FALSE /\ out' = <<>> /\ opens' = <<>> /\ perr' = 0 /\ chain' = Ev.chain
+            /\ err' = FALSE /\ out' = <<>> /\ opens' = <<>> /\ perr' = 0 /\ chain' = Ev.chain /\ rfail' = FALSE
             /\ UNCHANGED <<S, tcfg, Rest>>
 NextRR  == /\ Ev.ev = "next" /\ Ev.res = "rr"
            /\ ~err                                               \* no record once an error has occurred
+           /\ ~rfail                                             \* ... nor once a reader has failed
            /\ out' = Append(out, 0)
-           /\ UNCHANGED <<S, tcfg, perr, chain, cfg, err, opens, Rest>>
+           /\ UNCHANGED <<S, tcfg, perr, chain, rfail, cfg, err, opens, Rest>>
 NextErr == /\ Ev.ev = "next" /\ Ev.res = "err"
            /\ IF err THEN Ev.id = perr /\ UNCHANGED perr         \* Err() stays the same error
                      ELSE perr' = Ev.id
            /\ err' = TRUE
-           /\ UNCHANGED <<S, tcfg, chain, cfg, out, opens, Rest>>
+           /\ UNCHANGED <<S, tcfg, chain, rfail, cfg, out, opens, Rest>>
 NextEOF == /\ Ev.ev = "next" /\ Ev.res = "eof"
            /\ ~err                                               \* an error does not turn into a clean end
-           /\ UNCHANGED <<S, tcfg, perr, chain, zvars>>
+           /\ ~rfail                                             \* a read error is not a clean end either
+           /\ UNCHANGED <<S, tcfg, perr, chain, rfail, zvars>>
 OpenEv  == /\ Ev.ev = "open"
            /\ cfg.incAllowed                                     \* no file is opened unless includes were enabled
            /\ ~err
            /\ opens' = Append(opens, Ev.path)
            /\ (chain => Len(opens') <= MaxDepth)                 \* nesting stops at a fixed depth
-           /\ UNCHANGED <<S, tcfg, perr, chain, cfg, err, out, Rest>>
+           /\ UNCHANGED <<S, tcfg, perr, chain, rfail, cfg, err, out, Rest>>
+\* the zone's reader, or the reader of an included file, returned an I/O error to the parser (seen from outside,
+\* by the wrapper that injects it): the problem has to be reported -- the next results can only be `err'
+ReadFail == /\ Ev.ev = "readfail"
+            /\ rfail' = TRUE
+            /\ UNCHANGED <<S, tcfg, perr, chain, zvars>>
 
 NoCfg == [defTTL |-> -1, origin |-> NoName, incAllowed |-> FALSE, file |-> <<>>, files |-> <<>>]
-Init == /\ l = 1 /\ HWInit /\ S = {} /\ tcfg = NoCfg /\ perr = 0 /\ chain = FALSE
+Init == /\ l = 1 /\ HWInit /\ S = {} /\ tcfg = NoCfg /\ perr = 0 /\ chain = FALSE /\ rfail = FALSE
         /\ ZInit(NoCfg) /\ pol = [io |-> FALSE, it |-> FALSE, go |-> FALSE, gt |-> FALSE]
 Next == /\ l <= Len(Trace)
-        /\ StartEv \/ LineEv \/ SpellEv \/ IllEv \/ ParserEv \/ NextRR \/ NextErr \/ NextEOF \/ OpenEv
+        /\ StartEv \/ LineEv \/ SpellEv \/ IllEv \/ ParserEv \/ NextRR \/ NextErr \/ NextEOF \/ OpenEv \/ ReadFail
         /\ HW(l)
         /\ l' = l + 1
 =============================================================================
